@@ -845,3 +845,168 @@ Proof.
 Qed.
 
 End Construction.
+
+(* ------------------------------------------------------------------ without the freshness hypothesis:
+   objects that still hold their zero value, each decoded at most once by the packet *)
+Section FreshObjects.
+Variable St : Type.
+Variable fam : family St.
+Variable reg : Z -> option nat.
+Variable lkf : Z -> option nat.
+
+Definition zero_at (st : store St) (o : nat) : Prop :=
+  exists d, nth_error fam o = Some d /\ nth_error st o = Some (zero d).
+
+Lemma loop_spec_fresh (lk : Z -> outcome (option nat)) :
+  (forall t, lk t = Ok (lkf t)) -> like_with_like St fam reg lkf -> zero_free lkf ->
+  forall fuel st typ o data decoded tr chain pe pre s,
+    length st = length fam -> lkf typ = Some o ->
+    pkt fuel fam reg typ data = (chain, pe) -> pe <> PFuel ->
+    run_prefix (insub lkf) chain = (pre, s) ->
+    NoDup (map e_obj (touched pre s)) ->
+    (forall e, In e (touched pre s) -> zero_at st (e_obj e)) ->
+    loop fuel fam lk st typ o data decoded tr =
+      mkL (expected_store st (touched pre s)) (decoded ++ map e_typ pre)
+          (tr || expected_trunc (touched pre s)) (res_of St s pe).
+Proof.
+  intros Hlk Hlike Hzero.
+  induction fuel as [|fuel IH]; intros st typ o data decoded tr chain pe pre s Hlen Htyp Hpkt Hpe Hrun Hnd Hz.
+  - cbn in Hpkt. inversion Hpkt; subst. congruence.
+  - destruct (Hlike _ _ Htyp) as [Hreg Ho].
+    cbn [pkt] in Hpkt. rewrite Hreg in Hpkt.
+    destruct (nth_error fam o) as [d|] eqn:Hd.
+    2:{ apply nth_error_None in Hd. lia. }
+    pose proof (insub_some _ _ _ Htyp) as Hin.
+    destruct (dec d (zero d) data) as [[s' cls] t] eqn:Hdec.
+    (* the element just decoded is the head of touched: its object holds the zero value *)
+    assert (Hhead : exists rest, touched pre s = mkE typ o s' cls t :: rest /\
+              match cls with
+              | DOk => True
+              | _ => rest = [] /\ pre = [] /\ s = SFail (mkE typ o s' cls t) /\ chain = [mkE typ o s' cls t] /\ pe = PFailed
+              end).
+    { destruct cls.
+      - destruct (next_of d s' =? 0).
+        + inversion Hpkt; subst chain pe. cbn [run_prefix e_typ e_cls] in Hrun. rewrite Hin in Hrun.
+          inversion Hrun; subst. eexists; split; [reflexivity|exact I].
+        + destruct (payload_of d s') as [|b r].
+          * inversion Hpkt; subst chain pe. cbn [run_prefix e_typ e_cls] in Hrun. rewrite Hin in Hrun.
+            inversion Hrun; subst. eexists; split; [reflexivity|exact I].
+          * destruct (pkt fuel fam reg (next_of d s') (b :: r)) as [c pe'].
+            inversion Hpkt; subst chain pe'. cbn [run_prefix e_typ e_cls] in Hrun. rewrite Hin in Hrun.
+            destruct (run_prefix (insub lkf) c) as [p1 s1]. inversion Hrun; subst.
+            eexists; split; [reflexivity|exact I].
+      - inversion Hpkt; subst chain pe. cbn [run_prefix e_typ e_cls] in Hrun. rewrite Hin in Hrun.
+        inversion Hrun; subst. eexists; split; [reflexivity|]. repeat split; reflexivity.
+      - inversion Hpkt; subst chain pe. cbn [run_prefix e_typ e_cls] in Hrun. rewrite Hin in Hrun.
+        inversion Hrun; subst. eexists; split; [reflexivity|]. repeat split; reflexivity. }
+    destruct Hhead as [rest [Htch Hcls]].
+    assert (Hs0 : nth_error st o = Some (zero d)).
+    { destruct (Hz (mkE typ o s' cls t)) as [d' [Hd' Hst]]; [rewrite Htch; left; reflexivity|].
+      cbn [e_obj] in *. rewrite Hd in Hd'. inversion Hd'; subst d'. exact Hst. }
+    cbn [loop]. rewrite Hd, Hs0, Hdec.
+    destruct cls.
+    + (* DOk *)
+      destruct (next_of d s' =? 0) eqn:Hzz.
+      * inversion Hpkt; subst chain pe; clear Hpkt.
+        cbn [run_prefix e_typ e_cls] in Hrun. rewrite Hin in Hrun. inversion Hrun; subst pre s; clear Hrun.
+        cbn [touched app map e_typ expected_store fold_left e_obj e_state expected_trunc existsb e_trunc res_of].
+        rewrite orb_false_r.
+        destruct (payload_of d s') as [|b r]; [reflexivity|].
+        apply Z.eqb_eq in Hzz. rewrite Hlk, Hzz, Hzero. reflexivity.
+      * destruct (payload_of d s') as [|b r] eqn:Hpay.
+        -- inversion Hpkt; subst chain pe; clear Hpkt.
+           cbn [run_prefix e_typ e_cls] in Hrun. rewrite Hin in Hrun. inversion Hrun; subst pre s; clear Hrun.
+           cbn [touched app map e_typ expected_store fold_left e_obj e_state expected_trunc existsb e_trunc res_of].
+           rewrite orb_false_r. reflexivity.
+        -- destruct (pkt fuel fam reg (next_of d s') (b :: r)) as [c pe'] eqn:Hrec.
+           inversion Hpkt; subst chain pe'; clear Hpkt.
+           cbn [run_prefix e_typ e_cls] in Hrun. rewrite Hin in Hrun.
+           destruct (run_prefix (insub lkf) c) as [p1 s1] eqn:Hrun1.
+           inversion Hrun; subst pre s; clear Hrun.
+           assert (Hrest : rest = touched p1 s1).
+           { unfold touched in Htch. cbn [app] in Htch. inversion Htch. reflexivity. }
+           subst rest.
+           rewrite Hlk.
+           destruct (lkf (next_of d s')) as [o'|] eqn:Hnext.
+           ++ rewrite (IH (upd st o s') (next_of d s') o' (b :: r) (decoded ++ [typ]) (tr || t) c pe p1 s1); auto.
+              ** cbn [touched app map e_typ expected_store fold_left e_obj e_state expected_trunc existsb e_trunc].
+                 unfold touched, expected_store, expected_trunc.
+                 rewrite <- app_assoc. cbn [app]. rewrite orb_assoc. reflexivity.
+              ** rewrite upd_length. exact Hlen.
+              ** rewrite Htch in Hnd. cbn [map] in Hnd. inversion Hnd as [|? ? Hnotin Hnd']. exact Hnd'.
+              ** intros e He. rewrite Htch in Hnd. cbn [map e_obj] in Hnd. inversion Hnd as [|? ? Hnotin Hnd'].
+                 destruct (Hz e) as [d' [Hd' Hst]]; [rewrite Htch; right; exact He|].
+                 exists d'. split; [exact Hd'|]. rewrite nth_error_upd.
+                 assert (e_obj e <> o).
+                 { intros Heq. apply Hnotin. apply in_map_iff. exists e. split; [exact Heq|exact He]. }
+                 replace (e_obj e =? o)%nat with false by lia. exact Hst.
+           ++ pose proof (insub_none _ _ Hnext) as Hout.
+              destruct (pkt_head _ _ _ _ _ _ _ _ Hrec) as [[Hc Hp]|[e2 [r2 [Hc He2]]]].
+              ** subst c. cbn in Hrun1. inversion Hrun1; subst p1 s1.
+                 destruct Hp as [Hp|Hp]; [congruence|]. subst pe.
+                 cbn [touched app map e_typ expected_store fold_left e_obj e_state expected_trunc existsb e_trunc res_of].
+                 rewrite orb_false_r. reflexivity.
+              ** subst c. cbn [run_prefix] in Hrun1. rewrite He2, Hout in Hrun1. inversion Hrun1; subst p1 s1.
+                 cbn [touched app map e_typ expected_store fold_left e_obj e_state expected_trunc existsb e_trunc res_of].
+                 rewrite orb_false_r. reflexivity.
+    + destruct Hcls as [_ [Hp [Hs [Hc Hpe']]]]. subst pre s chain pe.
+      cbn [touched app map e_typ expected_store fold_left e_obj e_state expected_trunc existsb e_trunc res_of e_cls].
+      rewrite orb_false_r, app_nil_r. reflexivity.
+    + destruct Hcls as [_ [Hp [Hs [Hc Hpe']]]]. subst pre s chain pe.
+      cbn [touched app map e_typ expected_store fold_left e_obj e_state expected_trunc existsb e_trunc res_of e_cls].
+      rewrite orb_false_r, app_nil_r. reflexivity.
+Qed.
+
+(* DecodeLayers into objects holding their zero values, for ANY layers (stale-prone ones included),
+   when the packet decodes each object at most once *)
+Lemma decode_layers_spec_fresh p decoded0 data :
+  implements lkf true p -> like_with_like St fam reg lkf -> zero_free lkf ->
+  snd (packet_chain fam reg (p_first p) data) <> PFuel ->
+  let st0 := map (fun d => zero d) fam in
+  let '(chain, pe) := packet_chain fam reg (p_first p) data in
+  let '(pre, s) := run_prefix (insub lkf) chain in
+  NoDup (map e_obj (touched pre s)) ->
+  decode_layers true fam p st0 decoded0 data =
+    spec_parse fam reg (insub lkf) (p_first p) (p_ignpanic p) (p_ignunsup p) st0 data.
+Proof.
+  intros Himp Hlike Hzero Hfuel. cbv zeta.
+  pose proof (decode_layers_spec St fam reg lkf p (map (fun d => zero d) fam) decoded0 data) as Hgen.
+  unfold decode_layers, spec_parse in *.
+  destruct (packet_chain fam reg (p_first p) data) as [chain pe] eqn:Hchain.
+  destruct (run_prefix (insub lkf) chain) as [pre s] eqn:Hrun.
+  intros Hnd. cbn [snd] in Hfuel. destruct Himp as [Hlk Hfd]. rewrite Hfd in *.
+  destruct (lkf (p_first p)) as [o|] eqn:Hfirst.
+  - unfold packet_chain in Hchain.
+    rewrite (loop_spec_fresh _ Hlk Hlike Hzero _ _ _ _ _ [] false _ _ _ _ (map_length _ _) Hfirst Hchain Hfuel Hrun Hnd).
+    + cbn [l_store l_decoded l_trunc l_res app orb]. f_equal.
+      destruct s as [|t|e]; cbn [res_of expected_err].
+      * destruct pe; cbn; try reflexivity; try congruence.
+        unfold unsup_err. destruct (t =? 0) eqn:E; cbn; [rewrite orb_true_r; reflexivity|rewrite orb_false_r; reflexivity].
+      * unfold unsup_err. destruct (t =? 0) eqn:E; cbn; [rewrite orb_true_r; reflexivity|rewrite orb_false_r; reflexivity].
+      * destruct (e_cls e); reflexivity.
+    + (* every touched object exists and holds its zero value *)
+      intros e He. pose proof (pkt_elems St fam reg _ _ _ _ _ Hchain) as Hall. rewrite Forall_forall in Hall.
+      destruct (run_prefix_longest St _ _ _ _ Hrun) as [rest [Hc [_ Hs]]].
+      assert (Hin : In e chain).
+      { unfold touched in He. apply in_app_or in He. destruct He as [He|He].
+        - subst chain. apply in_or_app; left; exact He.
+        - destruct s as [|t|e0]; [destruct He|destruct He|]. destruct He as [He|[]]. subst e0.
+          destruct Hs as [r [Hr _]]. subst chain rest. apply in_or_app; right; left; reflexivity. }
+      destruct (Hall _ Hin) as [_ [d [dat [Hd _]]]].
+      exists d. split; [exact Hd|]. apply map_nth_error. exact Hd.
+  - (* first type not in the set: nothing is decoded, independent of freshness *)
+    pose proof (insub_none _ _ Hfirst) as Hout.
+    unfold packet_chain in Hchain.
+    destruct (pkt_head _ _ _ _ _ _ _ _ Hchain) as [[Hc Hp]|[e2 [r2 [Hc He2]]]].
+    + subst chain. cbn in Hrun. inversion Hrun; subst pre s.
+      destruct Hp as [Hp|Hp]; [congruence|]. subst pe.
+      cbn [touched app map expected_store fold_left expected_trunc existsb expected_err l_store l_decoded l_trunc l_res].
+      f_equal. unfold unsup_err.
+      destruct (p_first p =? 0) eqn:E; cbn; [rewrite orb_true_r; reflexivity|rewrite orb_false_r; reflexivity].
+    + subst chain. cbn [run_prefix] in Hrun. rewrite He2, Hout in Hrun. inversion Hrun; subst pre s.
+      cbn [touched app map expected_store fold_left expected_trunc existsb expected_err l_store l_decoded l_trunc l_res].
+      f_equal. unfold unsup_err.
+      destruct (p_first p =? 0) eqn:E; cbn; [rewrite orb_true_r; reflexivity|rewrite orb_false_r; reflexivity].
+Qed.
+
+End FreshObjects.
